@@ -794,9 +794,11 @@ def oracle_fit(c, ia):
         est[nm], err[nm] = v, e
     for nm in est:
         if c["noisy"]:
-            tol = 7.0 * err[nm] + 2e-3 * abs(truth[nm])
+            # z-scores measured on 1350 fits: mean 0.02-0.05, std 0.93-1.01, max 5.2 (gamma noise with n=20 is skewed)
+            tol = 10.0 * err[nm] + 1e-3 * abs(truth[nm])
         else:
-            tol = 2e-4 * abs(truth[nm]) + (2e-4 if nm == "alpha" else 0.0)
+            # measured: relative error <= 1e-10 on 1350 noise-free fits
+            tol = 1e-7 * abs(truth[nm])
         if not abs(est[nm] - truth[nm]) <= tol:
             return (
                 f"recovery[exploration,{branch_of(o)},{'noisy' if c['noisy'] else 'noise-free'}]: {nm}={est[nm]} vs generating "
@@ -813,9 +815,11 @@ def oracle_drive(c):
     if "error" in r:
         return f"driving-peak[exploration]: {r['error']} for a sinusoid at {c['f']} Hz (guess {c['guess']})"
     dur = c["n"] / c["rate"]
-    snr = c["amp"] / max(c["noise"], 1e-300)
-    ftol = 1e-6 * c["f"] + (5.0 / (snr * dur * math.sqrt(c["n"]))) + 2e-4 / dur
-    atol = 2e-3 * c["amp"] + 8.0 * c["noise"] * math.sqrt(2.0 / c["n"]) * 3
+    nrel = c["noise"] / c["amp"]
+    # measured on 600 signals: errors are ~N(0, (3 nrel/sqrt(n))^2) relative (amplitude) and the same /duration
+    # (frequency); noise-free floor 2.6e-6 (amplitude), 1.3e-6/duration (frequency).  Tolerance = 10 sigma + 8 x floor.
+    ftol = (30.0 * nrel / math.sqrt(c["n"]) + 1e-5) / dur
+    atol = (30.0 * nrel / math.sqrt(c["n"]) + 2e-5) * c["amp"]
     if not abs(r["freq"] - c["f"]) <= ftol:
         return f"driving-peak[exploration]: frequency {r['freq']} vs {c['f']} (tolerance {ftol})"
     if not abs(r["amp"] - c["amp"]) <= atol:
@@ -1061,6 +1065,8 @@ def fit_case(rng, stream, quick, noisy):
     fdiode = rng.uniform(5000.0, 20000.0)
     alpha = rng.uniform(0.1, 0.8)
     if fixed is not None:
+        if fixed[1] is not None and not 0.1 <= fixed[1] <= 0.8:
+            fixed[1] = rng.uniform(0.1, 0.8)  # alpha = 0 or 1 makes f_diode unidentifiable: outside the box
         fdiode = fixed[0] if fixed[0] is not None else fdiode
         alpha = fixed[1] if fixed[1] is not None else alpha
     fmin = 100.0
